@@ -603,6 +603,52 @@ def case_dispatch(case):
     return run_case(fn, replay, signature="dispatch:only_to_declaring_accelerator", sample=dict(kernel=kname, widths=widths), key=str(case))
 
 
+def case_declared(case):
+    """The predicate every accelerator interface and dispatch rule shares, SupportedKernel.is_same_kernel, against the
+    declaration read literally: same kernel class, and the declared list equals operand types followed by result types."""
+    from xdsl.dialects.builtin import IntegerType
+    from xdsl.ir import Block
+
+    from snaxc.accelerators.streamers.extensions import XDMA_EXT_SET
+    from snaxc.dialects import kernel
+
+    kname, widths, signed = case
+    sg = {None: None, "s": "signed", "u": "unsigned"}[signed]
+
+    def ity(w):
+        from xdsl.dialects.builtin import Signedness
+
+        return IntegerType(w) if sg is None else IntegerType(w, Signedness.SIGNED if sg == "signed" else Signedness.UNSIGNED)
+
+    def fn():
+        ctx = xshim.make_ctx()
+        decl = []
+        for name in sorted(ctx.registered_accelerator_names):
+            try:
+                a = ctx.get_acc(name)
+                decl += [(name, sk) for sk in getattr(a, "supported_kernels", ())]
+            except Exception:
+                continue
+        decl += [(e.name, e.supported_kernel) for e in XDMA_EXT_SET if e.supported_kernel is not None]
+        tys = [ity(w) for w in widths]
+        b = Block(arg_types=tys)
+        if kname == "rescale":
+            k = kernel.RescaleOp(b.args[0], tys[-1], 1, 2, [3], [4], 127, -128, False)
+        else:
+            KCLS = {"mul": kernel.MulOp, "add": kernel.AddOp, "mac": kernel.MacOp, "qmac": kernel.QMacOp}
+            k = KCLS[kname](operands=list(b.args[:-1]), result_types=[tys[-1]])
+        b.add_op(k)
+        E = eng()
+        sigt = [*k.operand_types, *k.result_types]
+        for owner, sk in decl:
+            want = type(k) is sk.kernel_type and list(sk.operand_types) == sigt
+            E.oblige("declared_kernel:is_same_kernel_agrees_with_the_declaration", z3.BoolVal(bool(sk.is_same_kernel(k)) == want),
+                     dict(declared_by=owner, declared=[str(t) for t in sk.operand_types], kernel=k.name, types=[str(t) for t in sigt]))
+        E.oblige("declared_kernel:explored", len(decl) > 0)
+
+    return run_case(fn, lambda f: replay_pinned(fn, f), signature=lambda f, v: f["name"], sample=dict(kernel=kname, widths=widths, signedness=sg), key=str(case))
+
+
 # ------------------------------------------------------------------ driver
 
 
@@ -725,6 +771,11 @@ def run(chk):
         cases.append(("qmac", ws))
     if only in (None, "dispatch"):
         chk.add_results("dispatch_type_check_finite", pmap(case_dispatch, cases, chunks=8))
+    dcases = [(k, ws, None) for k, ws in cases]
+    dcases += [("rescale", ws, None) for ws in itertools.product((8, 16, 32, 64), repeat=2)]
+    dcases += [(k, (32, 32, 32), sgn) for k in ("mul", "add", "mac") for sgn in ("s", "u")] + [("rescale", ws, sgn) for ws in ((32, 8), (8, 32)) for sgn in ("s", "u")]
+    if only in (None, "dispatch", "declared"):
+        chk.add_results("supported_kernel_predicate", pmap(case_declared, dcases, chunks=8))
     chk.bounds = dict(bodies=len(bodies), widths=list(widths), rescale="symbolic parameters, out widths 8/32, double_round 0/1")
     chk.outside = ["bodies with more than 4 ops other than rewirings of the qmac body", "per-channel rescale", "float kernels",
                    "dispatch clause is enumeration, not solver-decided"]
